@@ -286,6 +286,9 @@ Definition annot_oas (d : sdata) (k : okind oschema) : annot :=
   mkAnnot (sd_title d) (sd_description d) (okind_format k) (sd_default d) (sd_nullable d)
           (sd_deprecated d) (sd_read_only d) (sd_write_only d) (sd_extensions d) (sd_example d).
 
+Definition annot_nullable_only : annot :=
+  mkAnnot None None None None true false false false [] None.
+
 (* annotations of every node, in the order the converter traverses them; a
    [$ref] node and a [true] schema carry none *)
 Definition flat_map' {A B} (f : A -> list B) : list A -> list B :=
@@ -296,7 +299,10 @@ Fixpoint annots_js (name : option str) (s : schema) {struct s} : list (option an
   | SBool _ => [None]
   | SObj o =>
       match so_reference o with
-      | Some _ => [None]
+      | Some _ =>
+          (* siblings of a reference are ignored, except nullable: true, which
+             is published on a wrapper around the reference *)
+          if ext_nullable (so_extensions o) then [Some annot_nullable_only; None] else [None]
       | None =>
           Some (annot_js name o) ::
           match so_instance_type o, so_subschemas o with
